@@ -420,6 +420,36 @@ V('c19-dict-first-wins', ['C19'], [(G, """            for name, value in self.pa
 V('c19-m206-y-to-x', ['C19'], [(H, """                elif (label == "Y"):
                     position.Y_AXIS.setHomeOffset(value)""", """                elif (label == "Y"):
                     position.X_AXIS.setHomeOffset(value)""")])
+V('c19-handler-first-wins', ['C19'], [(H, """                elif (label == "X"):
+                    x = value
+                elif (label == "Y"):
+                    y = value
+                elif (label == "Z"):
+                    z = value
+
+        return self.state.processLinearMoves(cmd, extruderPosition, feedRate, z, x, y)""", """                elif (label == "X" and x is None):
+                    x = value
+                elif (label == "Y"):
+                    y = value
+                elif (label == "Z"):
+                    z = value
+
+        return self.state.processLinearMoves(cmd, extruderPosition, feedRate, z, x, y)""")])
+V('c19-g92-first-wins', ['C19'], [(H, """        position = self.state.position
+
+        for label, value in self.gcodeParser.parse(cmd).parameterItems():
+            if (value is not None):
+                if (label == "E"):
+                    # Note: 1.0 Marlin""", """        position = self.state.position
+        seen = set()
+
+        for label, value in self.gcodeParser.parse(cmd).parameterItems():
+            if (label in seen):
+                continue
+            seen.add(label)
+            if (value is not None):
+                if (label == "E"):
+                    # Note: 1.0 Marlin""")])
 V('c20-shallow-copy', ['C20'], [(SP, "            copy.deepcopy(gcodeHandlers.state),", "            copy.copy(gcodeHandlers.state),")])
 V('c20-live-handlers-stored', ['C20'], [(SP, """        self.gcodeHandlers = GcodeHandlers(
             copy.deepcopy(gcodeHandlers.state),
